@@ -1,3 +1,4 @@
+import Cx.Proofs.Reverse
 import Cx.Proofs.Compile
 import Cx.Proofs.Nfa
 /-
@@ -35,5 +36,30 @@ theorem C02_none_iff_no_match {cfg : Config} {re : Regex} {N : NFA} (hc : compil
       obtain ⟨s, e⟩ := p
       obtain ⟨h1, h2, h3, h4⟩ := btSearchAt_sound N h at_ s e hs
       exact absurd ((compile_lang hc hw hsz h s e).mp h4) (hall s e h1 (by omega))
+
+/-! #### start location through the reverse automaton (`nfa/reverse.go`: ReverseAnchored / Reverse)
+
+The meta engine finds the START of a match by running a DFA over the reverse automaton backwards from the match end.
+`Cx.Rev.reverse` is a state-by-state transliteration of `reverseWithOptions` (the check compares its output literally with
+the automaton the real code builds for every look-free pattern it generates).  `AcceptsA` is the path relation in which a
+sparse state may take ANY matching transition (what the Pike VM and the lazy DFA do; the construction merges byte edges into
+sparse states with overlapping ranges, so first-match acceptance would be the wrong reference — see
+`Cx.Rev.overlap_needs_all_transitions`). -/
+
+/-- reversing the automaton reverses the language, span by span: the reverse automaton, run on the reversed haystack from the
+    mirror image of `e`, accepts up to the mirror image of `s` exactly when the forward automaton accepts [s, e) -/
+theorem C02_reverse_automaton_language {N : NFA} (H : Rev.RevHyp N) (a : Bool) (h : Bytes) {s e : Nat} (hs : s ≤ h.size)
+    (he : e ≤ h.size) :
+    Rev.AcceptsA (Rev.reverse N a) (Rev.revB h) (h.size - e) (h.size - s) ↔ Rev.AcceptsA N h s e :=
+  Rev.reverse_accepts H a h hs he
+
+/-- hence the leftmost start for a fixed end is the LONGEST reverse match from that end — which is what the reverse DFA
+    (run in longest mode) reports -/
+theorem C02_leftmost_start_is_longest_reverse_match {N : NFA} (H : Rev.RevHyp N) (a : Bool) (h : Bytes) {s e : Nat}
+    (hs : s ≤ h.size) (he : e ≤ h.size) :
+    (Rev.AcceptsA N h s e ∧ ∀ s', s' < s → ¬ Rev.AcceptsA N h s' e) ↔
+      (Rev.AcceptsA (Rev.reverse N a) (Rev.revB h) (h.size - e) (h.size - s) ∧
+        ∀ j, h.size - s < j → j ≤ h.size → ¬ Rev.AcceptsA (Rev.reverse N a) (Rev.revB h) (h.size - e) j) :=
+  Rev.leftmost_start_is_longest_reverse H a h hs he
 
 end Cx.C02
